@@ -11,6 +11,13 @@
 //!          = the chosen pair and the vocabulary / statistics after update_stats.
 //!          vocab = ((word count) …), word = list of tokens; stats = (((first second) freq
 //!          ((idx occ) …)) …) sorted by pair, counters sorted by word index.
+//! Normalisation inside the model (NFKC_Model.v, NFKC_Tie.v): an optional 10th input field `side` holds
+//! strings; field 6 of the output then holds, per string, (nfc nfd nfkc nfkd g_nfc g_nfd g_nfkc g_nfkd)
+//! = text_utils::unicode::normalize(s, form, false) and, as options (`()` = equal to the code-point-mode
+//! result), normalize(s, form, true). `agree` requires the model's own normalize_model to equal them, and
+//! the model's own BufRead::lines + clean + normalize of the raw lines (field 5) to equal `proc`.
+//! Streams for that: `nfkc` (normalisation-stress lines as corpus AND side strings), `nfprobe` (64 probe
+//! strings around random scalar values; ALL scalar values in `gen --exhaustive`).
 //! Every training runs in a child process (`c19 train-child …`): train_bpe installs
 //! a process-wide panic hook that prints to stdout and leaves worker threads behind.
 use std::io::{BufRead, Write};
@@ -24,9 +31,101 @@ use text_utils::unicode::{normalize, Normalization};
 use text_utils::utils::SerializeMsgPack;
 use vh::*;
 
+#[path = "../nfkc_draw.rs"]
+mod nfkc_draw;
+use nfkc_draw::{CANON, CCC, COMP, COMPAT};
+
 struct C19 {
     dir: PathBuf,
     ctr: usize,
+    draw: Option<Draw>,
+}
+
+/// sets the normalisation-stress stream draws from (derived once from nfkc_draw.rs)
+struct Draw {
+    /// marks grouped by canonical combining class
+    by_class: Vec<(u8, Vec<u32>)>,
+    /// canonical singletons (decomposition of length 1)
+    singletons: Vec<u32>,
+    /// canonical composites that NFC does not give back (composition exclusions, non-starter decompositions)
+    not_recomposed: Vec<u32>,
+    /// keys whose decomposition starts with a non-starter
+    nonstarter_first: Vec<u32>,
+    /// compatibility keys with an expansion of five or more code points
+    long: Vec<u32>,
+}
+
+/// code points whose NFKC contains White_Space although they are not (KF3)
+const KF3: &[u32] = &[
+    0xA8, 0xAF, 0xB4, 0xB8, 0x2D8, 0x2D9, 0x2DA, 0x2DB, 0x2DC, 0x2DD, 0x37A, 0x384, 0x385, 0x1FBD, 0x1FBF, 0x1FC0,
+    0x1FC1, 0x1FCD, 0x1FED, 0x1FFD, 0x1FFE, 0x2017, 0x203E, 0x309B, 0x309C, 0xFC5E, 0xFDFA, 0xFDFB, 0xFE49, 0xFE70,
+    0xFE7E, 0xFFE3,
+];
+
+const N_SCALARS: u32 = 0x110000 - 0x800;
+/// k-th scalar value (surrogates skipped)
+fn scalar(k: u32) -> u32 {
+    if k < 0xD800 {
+        k
+    } else {
+        k + 0x800
+    }
+}
+
+fn ch(c: u32) -> char {
+    char::from_u32(c).unwrap_or(if c < 0xDC00 { '\u{D7FF}' } else { '\u{E000}' })
+}
+
+/// The probe strings around code point `c`, separated by U+000A (a starter that never composes and
+/// is a grapheme cluster of its own, so the probes do not interact) — keep in step with
+/// tools/gen_nfkc.py:probe_text.
+///  c                     the decomposition of c and whether NFC / NFKC give it back
+///  a c                   c as a mark on a starter (composition with `a`, cluster joining)
+///  c U+0301              c (or the last starter of its decomposition) as the composee
+///  C c U+0327 U+0301     reordering against classes 202 / 230, blocked and unblocked composition
+///                        (C + cedilla + acute = U+1E08 when nothing is in the way)
+///  U+1100 c U+11A8       Hangul: c as V (L+V, LV+T) or as an LV syllable after L
+///  U+AC00 c              c as T after an LV syllable (U+11A7 must not compose)
+///  c U+1161 U+11A8       c as L
+///  a U+0316 c U+0301     a starter c behind a buffered mark is blocked and flushes the buffer;
+///                        a mark c is sorted around class 220
+fn probe_text(c: u32) -> String {
+    let c = ch(c);
+    let mut s = String::new();
+    for (k, (pre, post)) in [
+        ("", ""),
+        ("a", ""),
+        ("", "\u{301}"),
+        ("C", "\u{327}\u{301}"),
+        ("\u{1100}", "\u{11A8}"),
+        ("\u{AC00}", ""),
+        ("", "\u{1161}\u{11A8}"),
+        ("a\u{316}", "\u{301}"),
+    ]
+    .iter()
+    .enumerate()
+    {
+        if k > 0 {
+            s.push('\n');
+        }
+        s.push_str(pre);
+        s.push(c);
+        s.push_str(post);
+    }
+    s
+}
+
+const FORMS: [Normalization; 4] = [Normalization::NFC, Normalization::NFD, Normalization::NFKC, Normalization::NFKD];
+
+/// (nfc nfd nfkc nfkd g_nfc g_nfd g_nfkc g_nfkd) of the real crate for one side string
+fn side_entry(s: &str) -> Val {
+    let plain: Vec<String> = FORMS.iter().map(|f| normalize(s, *f, false)).collect();
+    let mut out: Vec<Val> = plain.iter().map(|r| Val::str(r)).collect();
+    for (f, r) in FORMS.iter().zip(&plain) {
+        let g = normalize(s, *f, true);
+        out.push(if g == *r { Val::none() } else { Val::some(Val::str(&g)) });
+    }
+    Val::L(out)
 }
 
 fn norm_of(k: i64) -> Option<Normalization> {
@@ -48,13 +147,18 @@ struct Params {
     files: Vec<Vec<String>>,
     ntok: usize,
     tests: Vec<String>,
+    side: Vec<String>,
 }
 
 fn parse_params(input: &Val) -> Option<Params> {
     let l = input.as_l()?;
-    if l.len() != 9 {
+    if l.len() != 9 && l.len() != 10 {
         return None;
     }
+    let side = match l.get(9) {
+        Some(v) => v.as_l()?.iter().map(|s| s.to_string_lossy()).collect::<Option<Vec<_>>>()?,
+        None => vec![],
+    };
     let maxlines = match l[4].as_l()? {
         [] => None,
         [x] => Some(x.as_usize()?),
@@ -75,6 +179,7 @@ fn parse_params(input: &Val) -> Option<Params> {
         files,
         ntok: l[7].as_usize()?,
         tests,
+        side,
     })
 }
 
@@ -85,7 +190,7 @@ fn special_tokens(ntok: usize) -> Vec<String> {
 impl C19 {
     fn new() -> Self {
         let dir = PathBuf::from(format!("/tmp/c19/h{}", std::process::id()));
-        C19 { dir, ctr: 0 }
+        C19 { dir, ctr: 0, draw: None }
     }
 
     fn fresh_dir(&mut self) -> PathBuf {
@@ -146,11 +251,16 @@ impl C19 {
         let ntok = l[7].as_usize()?.clamp(1, 6);
         let tests: Vec<String> =
             l[8].as_l()?.iter().map(|s| s.to_string_lossy()).collect::<Option<Vec<_>>>()?;
+        // side strings (optional 10th field; kept only when there are any)
+        let side: Vec<String> = match l.get(9) {
+            Some(v) => v.as_l()?.iter().map(|s| s.to_string_lossy()).collect::<Option<Vec<_>>>()?,
+            None => vec![],
+        };
         let d = self.fresh_dir();
         let paths = Self::write_files(&d, &files)?;
         let proc = Self::processed(&paths, norm);
         let _ = std::fs::remove_dir_all(&d);
-        Some(Val::L(vec![
+        let mut out = vec![
             Val::u(vocab),
             Val::u(nspecial),
             Val::I(norm),
@@ -160,7 +270,244 @@ impl C19 {
             proc?,
             Val::u(ntok),
             Val::list(tests.iter(), |s| Val::str(s)),
-        ]))
+        ];
+        if !side.is_empty() {
+            out.push(Val::list(side.iter(), |s| Val::str(s)));
+        }
+        Some(Val::L(out))
+    }
+}
+
+/// scalar values per probe case
+const PER_CASE: usize = 64;
+
+fn in_table<T>(rng: &mut Rng, t: &[T]) -> usize {
+    // uniform over the entries (every block in proportion), the first / last entries preferred
+    match rng.below(16) {
+        0 => rng.below(2.min(t.len())),
+        1 => t.len() - 1 - rng.below(2.min(t.len())),
+        _ => rng.below(t.len()),
+    }
+}
+
+impl C19 {
+    fn draw(&mut self) -> &Draw {
+        if self.draw.is_none() {
+            let mut by_class: Vec<(u8, Vec<u32>)> = vec![];
+            for &(c, k) in CCC {
+                match by_class.iter_mut().find(|(kk, _)| *kk == k) {
+                    Some((_, v)) => v.push(c),
+                    None => by_class.push((k, vec![c])),
+                }
+            }
+            by_class.sort();
+            let is_mark = |c: u32| CCC.binary_search_by_key(&c, |e| e.0).is_ok();
+            let singletons = CANON.iter().filter(|e| e.1.len() == 1).map(|e| e.0).collect();
+            let not_recomposed = CANON
+                .iter()
+                .filter(|e| e.1.len() >= 2)
+                .map(|e| e.0)
+                .filter(|&c| {
+                    let s = ch(c).to_string();
+                    normalize(&s, Normalization::NFC, false) != s
+                })
+                .collect();
+            let nonstarter_first =
+                CANON.iter().chain(COMPAT.iter()).filter(|e| is_mark(e.1[0])).map(|e| e.0).collect();
+            let long = COMPAT.iter().filter(|e| e.1.len() >= 5).map(|e| e.0).collect();
+            self.draw = Some(Draw { by_class, singletons, not_recomposed, nonstarter_first, long });
+        }
+        self.draw.as_ref().unwrap()
+    }
+
+    /// a mark: mostly of one of the frequent classes (so that equal classes meet), else of any class
+    fn mark(&mut self, rng: &mut Rng) -> u32 {
+        let d = self.draw();
+        let want: u8 = match rng.below(10) {
+            0..=2 => 230,
+            3 | 4 => 220,
+            5 => 202,
+            6 => 1,
+            _ => d.by_class[rng.below(d.by_class.len())].0,
+        };
+        let v = &d.by_class.iter().find(|(k, _)| *k == want).unwrap_or(&d.by_class[0]).1;
+        // the common Latin marks are where the composition table is dense
+        if rng.chance(1, 2) {
+            v[rng.below(v.len().min(24))]
+        } else {
+            v[rng.below(v.len())]
+        }
+    }
+
+    /// one unit of a normalisation-stress line
+    fn nf_unit(&mut self, rng: &mut Rng, out: &mut String) {
+        const BASES: &[u32] = &[0x61, 0x41, 0x43, 0x65, 0x6F, 0x75, 0x73, 0xC5, 0xE7, 0x1EA1, 0x3B1, 0x3C9, 0x415, 0x5D1, 0x627, 0x915, 0x9C7, 0x1100, 0xAC00, 0x304B, 0x1D157, 0x11099];
+        match rng.below(31) {
+            // keys of the decomposition tables (every block; first / last entries)
+            0..=2 => out.push(ch(CANON[in_table(rng, CANON)].0)),
+            3..=5 => out.push(ch(COMPAT[in_table(rng, COMPAT)].0)),
+            // the decomposition itself, shuffled a little (what NFC / NFKC must put back together)
+            6 => {
+                let e = if rng.chance(1, 2) { CANON[in_table(rng, CANON)] } else { COMPAT[in_table(rng, COMPAT)] };
+                let mut v: Vec<u32> = e.1.to_vec();
+                if v.len() >= 3 && rng.chance(1, 2) {
+                    let k = 1 + rng.below(v.len() - 2);
+                    v.swap(k, k + 1);
+                }
+                v.iter().for_each(|c| out.push(ch(*c)));
+            }
+            // the KF3 set: NFKC writes SPACE (+ mark)
+            7 | 8 => out.push(ch(*rng.pick(KF3))),
+            // Hangul: syllables (LV and LVT), jamo, sequences that compose, T_BASE which must not
+            9 | 10 => {
+                for _ in 0..rng.range(1, 3) {
+                    let c = match rng.below(8) {
+                        0 => 0xAC00 + 28 * rng.below(399) as u32,
+                        1 => 0xAC00 + rng.below(11172) as u32,
+                        2 | 3 => 0x1100 + rng.below(19) as u32,
+                        4 | 5 => 0x1161 + rng.below(21) as u32,
+                        6 => 0x11A7 + rng.below(28) as u32,
+                        _ => *rng.pick(&[0x10FF, 0x1113, 0x1160, 0x1176, 0x11A7, 0x11C3, 0xABFF, 0xD7A3, 0xD7A4, 0x11A8]),
+                    };
+                    out.push(ch(c));
+                }
+            }
+            // a base and 1-4 marks in arbitrary order: equal and different classes
+            11..=14 => {
+                out.push(ch(*rng.pick(BASES)));
+                for _ in 0..rng.range(1, 4) {
+                    let m = self.mark(rng);
+                    out.push(ch(m));
+                }
+            }
+            // a composing pair with nothing / a mark of lower, equal or higher class / a starter in between
+            15..=17 => {
+                let (a, b, _) = COMP[in_table(rng, COMP)];
+                out.push(ch(a));
+                match rng.below(5) {
+                    0 | 1 => {}
+                    2 | 3 => {
+                        let m = self.mark(rng);
+                        out.push(ch(m));
+                    }
+                    _ => out.push(ch(*rng.pick(BASES))),
+                }
+                out.push(ch(b));
+                if rng.chance(1, 3) {
+                    let m = self.mark(rng);
+                    out.push(ch(m));
+                }
+            }
+            // a starter blocked by buffered marks, then something that would compose with the first starter
+            18 => {
+                out.push(ch(*rng.pick(BASES)));
+                let m = self.mark(rng);
+                out.push(ch(m));
+                out.push(ch(*rng.pick(BASES)));
+                let m = self.mark(rng);
+                out.push(ch(m));
+            }
+            // ligatures, fullwidth / halfwidth forms
+            19 => out.push(ch(0xFB00 + rng.below(7) as u32)),
+            20 => out.push(ch(0xFF01 + rng.below(0xEE) as u32)),
+            // singletons, composition exclusions, decompositions that start with a non-starter, long expansions
+            21 => {
+                let v = &self.draw().singletons;
+                out.push(ch(v[rng.below(v.len())]));
+            }
+            22 | 23 => {
+                let v = &self.draw().not_recomposed;
+                out.push(ch(v[rng.below(v.len())]));
+            }
+            24 => {
+                let v = &self.draw().nonstarter_first;
+                out.push(ch(v[rng.below(v.len())]));
+                if rng.chance(1, 2) {
+                    let m = self.mark(rng);
+                    out.push(ch(m));
+                }
+            }
+            25 => {
+                let v = &self.draw().long;
+                out.push(ch(v[rng.below(v.len())]));
+            }
+            // compatibility / halfwidth jamo next to jamo and syllables: separate grapheme clusters that
+            // compose across the boundary once decomposed — where per-cluster normalisation shows
+            26 => {
+                for _ in 0..rng.range(2, 3) {
+                    let c = match rng.below(7) {
+                        0 => 0x3131 + rng.below(30) as u32,
+                        1 | 2 => 0x314F + rng.below(21) as u32,
+                        3 => 0xFFA1 + rng.below(0x3C) as u32,
+                        4 => 0x1100 + rng.below(19) as u32,
+                        5 => 0x11A8 + rng.below(27) as u32,
+                        _ => 0xAC00 + 28 * rng.below(399) as u32,
+                    };
+                    out.push(ch(c));
+                }
+            }
+            // anything
+            27 => out.push(ch(scalar(rng.below(N_SCALARS as usize) as u32))),
+            // whitespace (all 25 code points and CRLF occur), ASCII
+            28 => out.push_str(*rng.pick(units::WS)),
+            _ => out.push_str(*rng.pick(units::ASCII)),
+        }
+    }
+
+    fn stress_line(&mut self, rng: &mut Rng) -> String {
+        let mut s = String::new();
+        for k in 0..rng.range(1, 6) {
+            if k > 0 && rng.chance(1, 3) {
+                s.push(' ');
+            }
+            self.nf_unit(rng, &mut s);
+        }
+        s
+    }
+
+    /// a training whose corpus lines are normalisation-stress lines (train_bpe cleans and normalises
+    /// them in grapheme mode with the chosen form) and which carries them as side strings too
+    fn stress_case(&mut self, rng: &mut Rng) -> Val {
+        let nl = rng.range(2, 7);
+        let lines: Vec<String> = (0..nl).map(|_| self.stress_line(rng)).collect();
+        let files: Vec<Vec<String>> = if rng.chance(1, 4) && nl >= 2 {
+            let k = rng.range(1, nl - 1);
+            vec![lines[..k].to_vec(), lines[k..].to_vec()]
+        } else {
+            vec![lines.clone()]
+        };
+        let (vocab, nspecial) = if rng.chance(2, 3) { (256, 0) } else { (320, 64 - rng.below(4)) };
+        let norm = if rng.chance(1, 12) { 0 } else { *rng.pick(&[1i64, 2, 3, 3, 4]) };
+        let raw = vec![
+            Val::u(vocab),
+            Val::u(nspecial),
+            Val::I(norm),
+            Val::u(rng.below(3)),
+            Val::none(),
+            Val::list(files.iter(), |f| Val::list(f.iter(), |s| Val::str(s))),
+            Val::L(vec![]),
+            Val::u(1),
+            Val::L(vec![]),
+            Val::list(lines.iter(), |s| Val::str(s)),
+        ];
+        self.build(&raw).expect("generator produced an input canon rejects")
+    }
+
+    /// no corpus, no merges: only the side channel
+    fn side_case(&mut self, strings: &[String]) -> Val {
+        let raw = vec![
+            Val::u(256),
+            Val::u(0),
+            Val::I(0),
+            Val::u(0),
+            Val::none(),
+            Val::L(vec![]),
+            Val::L(vec![]),
+            Val::u(1),
+            Val::L(vec![]),
+            Val::list(strings.iter(), |s| Val::str(s)),
+        ];
+        self.build(&raw).expect("generator produced an input canon rejects")
     }
 }
 
@@ -217,6 +564,17 @@ fn sep(rng: &mut Rng) -> &'static str {
 
 impl Prop for C19 {
     fn gen(&mut self, rng: &mut Rng, tier: Tier, _i: usize, _n: usize) -> Val {
+        // normalisation streams. Quick: 25% stress cases, 11% probe cases (64 random scalar values
+        // each: n_quick * 0.113 * 64 = 1/64 of all scalar values); thorough: 25% stress, no random
+        // probes (`--exhaustive` enumerates all scalar values).
+        let pick = rng.below(1000);
+        if pick < 250 {
+            return self.stress_case(rng);
+        }
+        if tier == Tier::Quick && pick < 363 {
+            let strings: Vec<String> = (0..PER_CASE).map(|_| probe_text(scalar(rng.below(N_SCALARS as usize) as u32))).collect();
+            return self.side_case(&strings);
+        }
         // alphabet of 2..6 symbols, mostly ASCII + one or two multi-byte units
         let na = rng.range(2, 6);
         let mut alpha: Vec<&str> = vec![];
@@ -379,9 +737,30 @@ impl Prop for C19 {
         out
     }
 
+    /// the small scope above (shard k of m) plus, for EVERY scalar value c = k mod m, the probe
+    /// strings around c, 64 scalar values per case
+    fn exhaustive_shard(&mut self, tier: Tier, k: usize, m: usize) -> Option<Vec<Val>> {
+        let mut out: Vec<Val> =
+            self.exhaustive(tier).into_iter().enumerate().filter(|(i, _)| i % m == k).map(|(_, v)| v).collect();
+        let mut batch: Vec<String> = vec![];
+        let mut i = k as u32;
+        while i < N_SCALARS {
+            batch.push(probe_text(scalar(i)));
+            if batch.len() == PER_CASE {
+                out.push(self.side_case(&batch));
+                batch.clear();
+            }
+            i += m as u32;
+        }
+        if !batch.is_empty() {
+            out.push(self.side_case(&batch));
+        }
+        Some(out)
+    }
+
     fn canon(&mut self, input: &Val) -> Option<Val> {
         let l = input.as_l()?;
-        if l.len() != 9 {
+        if l.len() != 9 && l.len() != 10 {
             return None;
         }
         self.build(l)
@@ -436,6 +815,7 @@ impl Prop for C19 {
                 let of = out_file.clone();
                 let ntok = p.ntok;
                 let tests = p.tests.clone();
+                let side = p.side.clone();
                 guard(move || {
                     let Ok(ops) = MergeOps::load(&of) else {
                         return Val::L(vec![Val::I(-776)]);
@@ -473,7 +853,12 @@ impl Prop for C19 {
                         Ok(s) => Val::opt(tok.token_to_id(s), |i| Val::I(i as i64)),
                         Err(_) => Val::none(),
                     });
-                    Val::L(vec![tv, toks, vsize, vocab, t2i, trace])
+                    let mut o = vec![tv, toks, vsize, vocab, t2i, trace];
+                    if !side.is_empty() {
+                        // the side channel: the real normalize on every side string, 4 forms x 2 modes
+                        o.push(Val::list(side.iter(), |s| side_entry(s)));
+                    }
+                    Val::L(o)
                 })
             }
             Some(-778) => Val::hang(),
@@ -501,6 +886,22 @@ impl Prop for C19 {
         }
         tags.push(format!("threads{}", p.threads));
         tags.push(if p.norm == 0 { "raw".into() } else { "norm".into() });
+        if !p.side.is_empty() {
+            // `nfprobe`: probe strings only, no corpus; `nfkc`: normalisation-stress lines as corpus + side strings
+            tags.push(if p.files.is_empty() { "nfprobe".into() } else { "nfkc".into() });
+            if let Some(es) = out.nth(6).and_then(|t| t.as_l()) {
+                let changed = |k: usize| es.iter().zip(&p.side).any(|(e, s)| e.nth(k).map_or(false, |r| *r != Val::str(s)));
+                if changed(0) || changed(1) {
+                    tags.push("nf-canon".into()); // NFC or NFD changes a side string
+                }
+                if es.iter().any(|e| e.nth(2) != e.nth(0)) {
+                    tags.push("nf-compat".into()); // NFKC differs from NFC
+                }
+                if es.iter().any(|e| (4..8).any(|k| e.nth(k).map_or(false, |g| g.as_l().map_or(false, |g| !g.is_empty())))) {
+                    tags.push("nf-cluster".into()); // per-cluster normalisation differs from whole-string
+                }
+            }
+        }
         Some((out, tags))
     }
 
@@ -521,6 +922,27 @@ impl Prop for C19 {
         }
         if text_utils::text::count_words_whitespace(&nonws, true).len() != 1 {
             errs.push("regex \\s matches a code point outside the White_Space table".into());
+        }
+        // the probe separator: every form and mode must leave "a\na" alone (U+000A neither composes nor joins)
+        for f in FORMS {
+            for g in [false, true] {
+                if normalize("a\u{301}\na\u{301}", f, g) != format!("{0}\n{0}", normalize("a\u{301}", f, g)) {
+                    errs.push("U+000A does not separate normalisation probes".into());
+                }
+            }
+        }
+        // the Gallina / Rust tables must be the translation of the locked crate's tables.rs
+        let md = env!("CARGO_MANIFEST_DIR");
+        for rel in ["../tools/gen_nfkc.py", "../../tools/gen_nfkc.py"] {
+            let p = std::path::Path::new(md).join(rel);
+            if p.exists() {
+                match std::process::Command::new("python3").arg(&p).arg("--check").output() {
+                    Ok(o) if o.status.success() => {}
+                    Ok(o) => errs.push(format!("tools/gen_nfkc.py --check: {}", String::from_utf8_lossy(&o.stdout).trim())),
+                    Err(e) => errs.push(format!("tools/gen_nfkc.py --check could not run: {e}")),
+                }
+                break;
+            }
         }
         errs
     }
